@@ -136,6 +136,7 @@ type Conn struct {
 	closed        bool
 	rdl, wdl      time.Time
 	Owner         string // node name for traces
+	dialled       Addr   // the address the dialer asked for (may be an alias of the listener's)
 }
 
 // Net is the simulated network of one run.
@@ -145,13 +146,15 @@ type Net struct {
 	Links     []*Link
 	ephemeral int
 	DialFault map[string]*DialFault // by target host:port
+	Alias     map[string]string     // dial address -> listener address (a TCP relay / NAT in front of a node)
+	Gen       int64                 // bumped whenever a link appears, is closed by an end, or is reset
 	// NewLinkHook configures each new link (latency, capacity, faults).
 	NewLinkHook func(l *Link)
 	Fired       map[string]int
 }
 
 func newNet(w *World) *Net {
-	return &Net{w: w, listeners: map[string]*Listener{}, DialFault: map[string]*DialFault{}, Fired: map[string]int{}}
+	return &Net{w: w, listeners: map[string]*Listener{}, DialFault: map[string]*DialFault{}, Alias: map[string]string{}, Fired: map[string]int{}}
 }
 
 // Listener implements net.Listener.
@@ -234,7 +237,11 @@ func (n *Net) Dial(ctx context.Context, fromHost, to string) (net.Conn, error) {
 	if err := ctx.Err(); err != nil {
 		return nil, err
 	}
-	l := n.listeners[to]
+	lto := to
+	if a, ok := n.Alias[to]; ok {
+		lto = a
+	}
+	l := n.listeners[lto]
 	if l == nil || l.closed {
 		return nil, errRefused
 	}
@@ -243,9 +250,10 @@ func (n *Net) Dial(ctx context.Context, fromHost, to string) (net.Conn, error) {
 	link := &Link{ID: len(n.Links) + 1, OpenedEv: n.w.tick()}
 	mk := func(dir int) *pipe { return &pipe{link: link, dir: dir, capacity: 256 << 10} }
 	ab, ba := mk(0), mk(1)
-	link.A = &Conn{n: n, link: link, side: 0, local: local, remote: Addr(to), rd: ba, wr: ab}
-	link.B = &Conn{n: n, link: link, side: 1, local: Addr(to), remote: local, rd: ab, wr: ba}
+	link.A = &Conn{n: n, link: link, side: 0, local: local, remote: Addr(to), rd: ba, wr: ab, dialled: Addr(to)}
+	link.B = &Conn{n: n, link: link, side: 1, local: Addr(lto), remote: local, rd: ab, wr: ba}
 	n.Links = append(n.Links, link)
+	n.Gen++
 	if n.NewLinkHook != nil {
 		n.NewLinkHook(link)
 	}
@@ -263,6 +271,7 @@ func (p *pipe) other() *pipe {
 
 // reset aborts the link in both directions.
 func (l *Link) reset(n *Net, why string) {
+	n.Gen++
 	if l.CutEv == 0 {
 		l.CutEv = n.w.tick()
 		l.CutAt = simrt.Elapsed()
@@ -553,6 +562,7 @@ func (c *Conn) Close() error {
 		return errClosedConn
 	}
 	c.closed = true
+	c.n.Gen++
 	if c.link.CloseEv[c.side] == 0 {
 		c.link.CloseEv[c.side] = c.n.w.tick()
 		c.link.CloseAt[c.side] = simrt.Elapsed()
